@@ -56,6 +56,11 @@ def gen(rng, tier):
             # application queue, WINDOW_UPDATEs queued behind DATA) - a liveness matter outside this property
             limit = rng.choice([1, 16, 1024])
         msgs = [_gen_message(rng, k, limit) for k in range(nmsg)]
+        # pings directly followed by the client's Close in the same read: each arrived before the Close, so each is owed its pong
+        # (RFC 6455 5.5.2).  No data messages here: their echoes would race the closing handshake.
+        ping_close = (not burst) and carrier == "h11" and rng.random() < 0.06
+        if ping_close:
+            msgs = []
         if burst:
             limit = 65536
             msgs = [("text", "m%03d" % k) if rng.random() < 0.7 else ("bytes", b"b%03d" % k) for k in range(nmsg)]
@@ -93,6 +98,19 @@ def gen(rng, tier):
                 pl = b"bp%d" % j
                 frames += ws.frame(ws.OP_PING, pl)
                 pings.append((nmsg + 0.5, pl))
+        if i % 400 == 399 and carrier == "h11" and not ping_close:
+            # far more pings than one read of the server holds (several reads' worth arrive at once), from a client that takes every pong:
+            # nothing excuses leaving one of them unanswered
+            for j in range(rng.choice([25000, 40000])):
+                pl = b"" if j % 3 else b"%d" % j
+                frames += ws.frame(ws.OP_PING, pl)
+                pings.append((nmsg + 0.75, pl))
+        if ping_close:
+            for j in range(rng.choice([1, 2, 5])):
+                pl = b"pc%d-%d" % (i, j)
+                frames += ws.frame(ws.OP_PING, pl)
+                pings.append((0.5, pl))
+            frames += ws.close_frame(1000)
         closef = ws.close_frame(1000)  # sent only after the echoes had a chance to arrive
         ext = None
         if deflate:
@@ -120,8 +138,9 @@ def gen(rng, tier):
             client.append(["settle"])
             if keepalive_pings:
                 client += [["advance", 1.3], ["settle"]]
-            client += [["feed", closef], ["settle"]]
-            yield {"family": "h11." + ("deflate" if deflate else "plain") + (".burst" if burst else ""), "backends": ["asyncio", "trio"],
+            if not ping_close:
+                client += [["feed", closef], ["settle"]]
+            yield {"family": "h11." + ("deflate" if deflate else "plain") + (".burst" if burst else "") + (".ping-then-close" if ping_close else ""), "backends": ["asyncio", "trio"],
                    "config": config, "conn": {}, "apps": apps, "client": client, "reactor": {"kind": "ws", "echo_close": False},
                    "truth": truth, "sched": {"seed": rng.randrange(1 << 30)}, "horizon": 100.0}
         else:
